@@ -589,3 +589,51 @@ func everyLapProgresses(idx *ssa.Phi, loop map[*ssa.BasicBlock]bool, isRemoval f
 	}
 	return true, ""
 }
+
+
+// depthLimitReached: at ins, on every path, the recursion guard is known to
+// have fired: maxDepth > 0  ∧  depth >= maxDepth.
+func depthLimitReached(ff *FuncFacts, fn *ssa.Function, ins ssa.Instruction, depthName, maxName string) bool {
+	type pr struct {
+		v    ssa.Value
+		want factKind
+	}
+	var limited, reached []pr
+	for _, b := range fn.Blocks {
+		for _, i2 := range b.Instrs {
+			bo, ok := i2.(*ssa.BinOp)
+			if !ok {
+				continue
+			}
+			isP := func(v ssa.Value, n string) bool { return isParamNamed(v, n) }
+			isZero := func(v ssa.Value) bool { n, ok := intConst(v); return ok && n == 0 }
+			switch {
+			case isP(bo.X, maxName) && isZero(bo.Y) && bo.Op == token.GTR, isZero(bo.X) && isP(bo.Y, maxName) && bo.Op == token.LSS:
+				limited = append(limited, pr{bo, fTRUE})
+			case isP(bo.X, maxName) && isZero(bo.Y) && bo.Op == token.LEQ, isZero(bo.X) && isP(bo.Y, maxName) && bo.Op == token.GEQ:
+				limited = append(limited, pr{bo, fFALSE})
+			case isP(bo.X, depthName) && isP(bo.Y, maxName) && bo.Op == token.GEQ, isP(bo.X, maxName) && isP(bo.Y, depthName) && bo.Op == token.LEQ:
+				reached = append(reached, pr{bo, fTRUE})
+			case isP(bo.X, depthName) && isP(bo.Y, maxName) && bo.Op == token.LSS, isP(bo.X, maxName) && isP(bo.Y, depthName) && bo.Op == token.GTR:
+				reached = append(reached, pr{bo, fFALSE})
+			}
+		}
+	}
+	if len(limited) == 0 || len(reached) == 0 {
+		return false
+	}
+	return ff.holdsOnEveryPath(ins, func(s *factState) bool {
+		a, b := false, false
+		for _, x := range limited {
+			if s.facts[fact{ff.canon(s, x.v), x.want, ""}] {
+				a = true
+			}
+		}
+		for _, x := range reached {
+			if s.facts[fact{ff.canon(s, x.v), x.want, ""}] {
+				b = true
+			}
+		}
+		return a && b
+	}, 24)
+}
